@@ -116,6 +116,10 @@ let handle (toks : string list) : string =
       (match parse_text (fixed = "1") (asciis_of_hex (if hex = "-" then "" else hex)) with POk p -> "ok " ^ string_of_pstr p | PErr -> "ValueError")
   | "klocal" :: n :: gens ->
       res_str strs (k_local_generators (nat_of_int (int_of_string n)) (List.map pstr_of_string gens))
+  | ["universal"; n; k] -> res_str strs (universal (nat_of_int (int_of_string n)) (nat_of_int (int_of_string k)))
+  | "nested" :: seq -> (match nested_eval (List.map pstr_of_string seq) with None -> "None" | Some r -> string_of_pstr r)
+  | "compileok" :: n :: k :: target :: seq ->
+      bool_str (compile_ok (nat_of_int (int_of_string n)) (nat_of_int (int_of_string k)) (pstr_of_string target) (List.map pstr_of_string seq))
   | _ -> "ERR unknown request"
 
 let () =
